@@ -178,10 +178,16 @@ def lexBody : Nat → List Char → List XTok
         | .err => [.bad false]
         | .unmodelled => [.bad true]
       | '?' :: r =>
-        -- a processing instruction inside the body: skipped by the unmarshaller
-        match skipPast ['?', '>'] r with
-        | some r1 => lexBody fuel r1
-        | none => [.bad false]
+        -- a processing instruction inside the body: needs a target name, then skipped by the
+        -- unmarshaller; a second `<?xml …?>` (re-checked for version/encoding by Go) is not modelled
+        match readName r with
+        | .ok n r0 =>
+          if n == "xml" then [.bad true] else
+          match skipPast ['?', '>'] r0 with
+          | some r1 => lexBody fuel r1
+          | none => [.bad false]
+        | .err => [.bad false]
+        | .unmodelled => [.bad true]
       | '!' :: '-' :: '-' :: r =>
         -- comment; "--" inside is a syntax error in Go
         match skipPast ['-', '-'] r with
